@@ -7,11 +7,13 @@ constructed Rotor / Rotor-FA1 / Turbine / trivial instances on a recording netwo
 traces against Trace_Dissemination (routing function unlogged, inferred; delivery predicate at the
 end of each run; tree shape at the end of each configuration)."""
 import json
-import os
 import re
+import threading
 from concurrent.futures import ThreadPoolExecutor
 
 from ..core import ToolError
+
+ctx_lock = threading.Lock()
 
 MODEL = "dissem-trace"
 
@@ -31,7 +33,8 @@ MC_INVS = ("INVARIANTS EveryoneReceivesInv ExactlyOnceTurbine OneRelayBroadcastR
            "DeliveredInv NeverTwiceInv WellAddressed MessageBudget\n")
 WITNESSES = ["W_Terminal", "W_RelayIsLeader", "W_RelayNotLeader", "W_LeaderInnerNode", "W_DeepTree"]
 
-TRACE_CFG = "INIT Init\nNEXT Next\nCHECK_DEADLOCK FALSE\n"
+# the trace spec is deterministic: the event index identifies the state
+TRACE_CFG = "INIT Init\nNEXT Next\nCHECK_DEADLOCK FALSE\nVIEW ViewI\n"
 
 
 def mc_defs(two_upto, deviant=-1, kinds=("rotor", "turbine", "trivial")):
@@ -63,9 +66,9 @@ def model_checking(ctx):
         cfg = MC_CFG.format(maxn=6, maxf=3, recn=5)
         defs = mc_defs(two_upto=4)
     else:
-        cfg = MC_CFG.format(maxn=7, maxf=3, recn=6)
+        cfg = MC_CFG.format(maxn=7, maxf=4, recn=5)
         defs = mc_defs(two_upto=5)
-    r = ctx.tlc("mc", "MC_Dissemination", cfg + MC_INVS, defs, workers=6,
+    r = ctx.tlc("mc", "MC_Dissemination", cfg + MC_INVS, defs, workers=4,
                 timeout=(300 if quick else 1500))
     ctx.notes["mc"] = {"states": r.distinct, "generated": r.generated, "wall_s": round(r.wall_s, 1)}
     if r.distinct < 1000:
@@ -83,14 +86,25 @@ def vacuity(ctx):
     ctx.notes.setdefault("witnesses_reached", []).append("deviant validator breaks " + r.violated)
 
 
+def recogniser(ctx):
+    """thorough: the tree recogniser against all 6 * 6^5 parent graphs on 6 validators (constant-level
+    ASSUME of MC_Dissemination; the state space of this run is a dummy)"""
+    r = ctx.tlc("mc_recogniser", "MC_Dissemination", MC_CFG.format(maxn=2, maxf=4, recn=6),
+                mc_defs(two_upto=1, kinds=("trivial",)), workers=1, timeout=1500)
+    ctx.notes["recogniser_cross_check"] = {"validators_upto": 6, "wall_s": round(r.wall_s, 1)}
+
+
 def validate_trace(ctx, t):
-    kind = t["kind"]
+    kind = t["label"]
     n_lines = sum(1 for _ in open(t["trace"]))
     if n_lines != t["events"] or n_lines == 0:
         raise ToolError(f"trace {kind}: {n_lines} lines, harness reported {t['events']} events")
     r = ctx.tlc(f"trace_{kind}", "Trace_Dissemination", TRACE_CFG, "", workers=1,
                 timeout=(600 if ctx.tier == "quick" else 3000), heap="6g",
                 env={"TRACE": t["trace"]}, dfs=True)
+    with ctx_lock:
+        ctx.states -= r.distinct       # trace steps are counted as validated calls, not as model states
+        ctx.transitions -= r.generated
     done = tagged(r.out_path, "DONE")
     if len(done) != 1 or done[0]["events"] != n_lines or r.distinct != n_lines + 1:
         raise ToolError(f"trace {kind}: TLC did not consume the whole trace (see {r.out_path})")
@@ -109,18 +123,23 @@ def run(ctx):
     rep = ctx.harness(["replay-dissem", "--out", ctx.work, "--tier", ctx.tier, "--seed", ctx.seed])
     traces = rep["traces"]
 
-    with ThreadPoolExecutor(max_workers=4) as ex:
-        futs = [ex.submit(validate_trace, ctx, t) for t in traces]
+    # at most 6 TLC workers at any time: model checking (4) + vacuity runs (2), then the traces (1 each)
+    with ThreadPoolExecutor(max_workers=6) as ex:
         f_vac = ex.submit(vacuity, ctx)
+        f_rec = ex.submit(recogniser, ctx) if ctx.tier != "quick" else None
         model_checking(ctx)
         f_vac.result()
+        futs = [ex.submit(validate_trace, ctx, t) for t in sorted(traces, key=lambda t: -t["events"])]
         results = [f.result() for f in futs]
+        if f_rec:
+            f_rec.result()
 
-    by_kind = {t["kind"]: t for t in traces}
+    by_kind = {t["label"]: t for t in traces}
     summary = {}
-    for kind, cnt, divs, r in results:
-        t = by_kind[kind]
-        summary[kind] = {"events": t["events"], "configs": cnt["cfgs"], "runs_started": cnt["runs"],
+    for label, cnt, divs, r in results:
+        t = by_kind[label]
+        kind = t["kind"]
+        summary[label] = {"events": t["events"], "configs": cnt["cfgs"], "runs_started": cnt["runs"],
                          "shred_disseminations_delivered": cnt["delivered"],
                          "net_calls_conforming": cnt["net"], "probe_calls_conforming": cnt["probes"],
                          "entries_inferred": cnt["inferred"], "turbine_trees_recognised": cnt["trees"],
@@ -144,12 +163,16 @@ def run(ctx):
                 raise ToolError(f"trace {kind}: recording inconsistent with itself: {reason} at event {d['idx']}")
             ev = d.get("ev", {})
             what = ev.get("call") or ev.get("what") or ev.get("op")
-            fp = f"{kind}:{reason}:{what}:{d.get('class', '-')}"
+            cls = d.get("class", "-")
+            if reason == "panic":
+                # a panic is data: classified by where it happened and its message
+                cls = re.sub(r"[^a-z0-9]+", "_", str(ev.get("msg", "")).lower()).strip("_")[:80] or "-"
+            fp = f"{kind}:{reason}:{what}:{cls}"
             out.append({"fingerprint": fp, "fields": [reason],
-                        "trace": by_kind[kind]["trace"], "event_index": d["idx"],
+                        "trace": t["trace"], "event_index": d["idx"],
                         "config": {"id": d["cfg"], "n": d["n"], "fanout": d["f"]},
                         "offending_event": ev, "spec_expected": d.get("detail")})
-        ctx.replay_report(MODEL, {"model": MODEL + ":" + kind, "walks": cnt["runs"], "steps": t["events"],
+        ctx.replay_report(MODEL, {"model": MODEL + ":" + label, "walks": cnt["runs"], "steps": t["events"],
                                   "edges": cnt["net"] + cnt["probes"], "covered": cnt["net"] + cnt["probes"],
                                   "complete": cnt["divs"] == 0, "div_count": cnt["divs"],
                                   "fingerprints": sorted({o["fingerprint"] for o in out}),
